@@ -119,6 +119,7 @@ func Build(s Spec, mons ...vnet.Monitor) *Built {
 	watchRejects := false
 	watchFlips := false
 	amnesiaAfterProposal := false
+	amnesiaAsync := false
 	initTx := 0
 	switch s.Profile {
 	case "sync-perm":
@@ -189,6 +190,15 @@ func Build(s Spec, mons ...vnet.Monitor) *Built {
 			PDelayReset: 0.3, PTimeoutDecided: 0.03, PNewTx: 0.02, PTxMissing: 0.1, PSupply: 0.15, PSyncLedger: 0.002, PAdv: 0.12, SlowNode: -1, ResetDelayNode: -1}
 		adv = true
 		initTx = r.Intn(8)
+	case "amnesia-async":
+		// hostile (asynchronous) runs in which up to F validators restart with empty consensus state at
+		// arbitrary scheduler steps, possibly several times; with F >= 2 one of the faulty ones may be Byzantine
+		cfg = baseConfig(s, r, Opt{Ns: []int{4, 4, 4, 5, 6, 7, 7, 10}, Dyn: 1})
+		cfg.K = vnet.Knobs{PDrop: 0.01, PDup: 0.06, PEarlyTimer: 0.012, PStaleTimer: 0.003, PAdvance: 0.02,
+			PDelayReset: 0.3, PTimeoutDecided: 0.03, PNewTx: 0.02, PTxMissing: 0.15, PSupply: 0.15, PSyncLedger: 0.004,
+			PRestart: []float64{0.002, 0.006, 0.02}[r.Intn(3)], MaxRestarts: 1 + r.Intn(4), SlowNode: -1, ResetDelayNode: -1}
+		amnesiaAsync = true
+		initTx = r.Intn(8)
 	case "missing-tx":
 		cfg = baseConfig(s, r, Opt{Ns: []int{2, 3, 4, 4, 5, 7}})
 		cfg.TxPerBlock = 1 + r.Intn(5)
@@ -258,7 +268,21 @@ func Build(s Spec, mons ...vnet.Monitor) *Built {
 		panic("unknown profile " + s.Profile)
 	}
 	cfg.Roles = make([]vnet.Role, cfg.N+cfg.Watchers)
-	if adv {
+	if amnesiaAsync {
+		f := (cfg.N - 1) / 3
+		perm := r.Perm(cfg.N)
+		nb := 0
+		if f >= 2 && r.Intn(2) == 0 {
+			nb = 1 + r.Intn(f-1)
+			adv = true
+			cfg.K.PAdv = 0.1
+		}
+		for _, id := range perm[:nb] {
+			cfg.Roles[id] = vnet.Byzantine
+		}
+		na := 1 + r.Intn(f-nb)
+		cfg.K.RestartSet = append([]int{}, perm[nb:nb+na]...)
+	} else if adv {
 		f := (cfg.N - 1) / 3
 		nb := 1 + r.Intn(f)
 		for _, id := range r.Perm(cfg.N)[:nb] {
@@ -395,7 +419,7 @@ func Build(s Spec, mons ...vnet.Monitor) *Built {
 			}
 		}
 	}
-	if cfg.AMEV >= 0 && (s.Profile == "byz" || s.Profile == "async-benign" || s.Profile == "missing-tx") && r.Intn(2) == 0 {
+	if cfg.AMEV >= 0 && (s.Profile == "byz" || s.Profile == "async-benign" || s.Profile == "missing-tx" || s.Profile == "amnesia-async") && r.Intn(2) == 0 {
 		// failing pre-block / block callbacks (allowed to fail under anti-MEV: the node waits for more (pre)commits)
 		for _, n := range c.Nodes {
 			if r.Intn(3) == 0 {
